@@ -36,6 +36,20 @@ def multi_oracle(case, obs):
         for sk, oids in by_sk.items():
             if len(oids) > 1:
                 return f'step {k}: the same computation {sk} is held by {len(oids)} distinct task objects of one MultiChain'
+        # the same computation (reference descriptor: class, persisted parameter values, inputs recursively),
+        # wherever it is mounted, is one object with one key
+        from .c03 import descriptors
+        seen_desc = {}
+        for ci, (b, m) in enumerate(zip(op['bases'], members)):
+            d = descriptors(dict(case, base=b))
+            if d is None or set(d[0]) != set(m['tasks']):
+                continue
+            for name, t in m['tasks'].items():
+                prev = seen_desc.get(d[0][name])
+                if prev is not None and (prev[1]['key'] != t['key'] or prev[1]['objid'] != t['objid']):
+                    return (f'step {k}: {prev[0]} and {name} (chain {ci}) are the same computation but have keys '
+                            f'{prev[1]["key"]} / {t["key"]} and are {"one object" if prev[1]["objid"] == t["objid"] else "two objects"}')
+                seen_desc.setdefault(d[0][name], (name, t))
         for b, m in zip(op['bases'], members):
             ref = standalone.get(json.dumps(b, sort_keys=True))
             if ref is None:
@@ -78,7 +92,21 @@ class Multi(Histories):
                     {'op': 'has_data', 'chain': 1, 'pick': 1}, {'op': 'value', 'chain': 2, 'pick': 1},
                     {'op': 'force_multi', 'multi': 0, 'picks': [0], 'recompute': True, 'delete': True},
                     {'op': 'value', 'chain': 2, 'pick': 1}]
-        return [c, d]
+        # different classes with one short name in different groups, same parameters and inputs: never one object
+        g = dict(classes=[dict(K(0, 'RawStats', group='raw'), name='stats'), dict(K(1, 'CleanStats', group='clean'), name='stats')],
+                 files={}, base={'name': 'c1', 'data': {'tasks': ['@M.RawStats']}}, context=None)
+        gb = [{'name': 'c1', 'data': {'tasks': ['@M.RawStats']}}, {'name': 'c2', 'data': {'tasks': ['@M.CleanStats']}}]
+        g['ops'] = [{'op': 'build', 'base': gb[1]}, {'op': 'multi', 'bases': gb}, {'op': 'value', 'chain': 1, 'pick': 0},
+                    {'op': 'value', 'chain': 2, 'pick': 0}, {'op': 'restart'}, {'op': 'multi', 'bases': gb},
+                    {'op': 'value', 'chain': 1, 'pick': 0}]
+        # one pipeline mounted under a nested namespace in one config and under a flat one in the other
+        n = dict(classes=[dict(K(0, 'Src'), name='src'), dict(K(1, 'Agg', meta_inputs=[{'cls': 0}]), name='agg')],
+                 files={'pipe.json': {'tasks': ['@M.*']}, 'mid.json': {'uses': 'pipe.json as b'}},
+                 base={'name': 'c1', 'data': {'uses': 'mid.json as a'}}, context=None)
+        nb = [{'name': 'c1', 'data': {'uses': 'mid.json as a'}}, {'name': 'c2', 'data': {'uses': 'pipe.json as c'}}]
+        n['ops'] = [{'op': 'build', 'base': nb[1]}, {'op': 'multi', 'bases': nb}, {'op': 'value', 'chain': 1, 'pick': 1},
+                    {'op': 'value', 'chain': 2, 'pick': 1}, {'op': 'value', 'chain': 0, 'pick': 1}]
+        return [c, d, g, n]
 
     def oracle(self, case, obs):
         m = multi_oracle(case, obs)
